@@ -16,6 +16,7 @@ Spec: specs/Omml.tla (+ OmmlGen, OmmlTrace).
 """
 from __future__ import annotations
 
+import hashlib
 import io
 import json
 import random
@@ -615,32 +616,45 @@ def _observe(ctx, cases, known, tag, channels=True, nproc=8):
 
 
 def _validate(ctx, observed, parallel):
+    """TLC validates the observed cases; -> compact summary (the observations themselves are dropped)."""
     traces = [make_trace(c) for c in observed]
-    return traces, validate_traces(traces, ctx.scratch, parallel=parallel)
-
-
-def _judge(ctx, observed, label, counts, parallel=10, pre=None):
-    """validate the observed cases by TLC and turn rejections into violations."""
-    ev, v = ctx.ev, ctx.v
-    traces, (reached, distinct, generated, wall) = pre if pre is not None else _validate(ctx, observed, parallel)
-    ev.tlc_counts(f"OmmlTrace: {label} ({len(traces)} trees validated)", distinct, generated, wall)
-    ev.replayed(len(traces))
+    reached, distinct, generated, wall = validate_traces(traces, ctx.scratch, parallel=parallel)
+    summ = {"n": len(traces), "distinct": distinct, "generated": generated, "wall": wall, "nontrivial": set(),
+            "rejected": [], "counts": {}, "sample": None}
     for c, t, r in zip(observed, traces, reached):
         if any(n["k"] != "r" for n in c["tree"]):
-            ev.nontrivial(json.dumps(c["tree"], sort_keys=True))
+            summ["nontrivial"].add(hashlib.md5(json.dumps(c["tree"], sort_keys=True).encode()).hexdigest()[:16])
         if r == len(t["ev"]):
-            v.ok(1)
             continue
         clause = t["ev"][r]["a"]
-        counts[clause] = counts.get(clause, 0) + 1
-        if counts[clause] <= 6:
-            v.violation(what=f"{CLAUSE_WHAT[clause]} [{label}]", case={"tree": c["tree"], "omml": c["xml"]},
-                        expected=f"clause {clause} of Omml.tla (Pattern / Balanced / Total)",
-                        observed={"omml_to_latex": c["out"]["s"], "second": c["out2"]["s"],
-                                  "docx": c["doc"], "pptx": c["ppt"]},
-                        where="omml_to_latex.py:omml_to_latex/process_element" if clause in ("Total", "Shape", "Balance", "Again")
-                        else "docx_extractor.py:_process_text_element / pptx_extractor.py:_extract_formulas_from_element")
-    return len(traces)
+        summ["counts"][clause] = summ["counts"].get(clause, 0) + 1
+        if summ["counts"][clause] <= 6:
+            summ["rejected"].append((clause, c))
+    if observed:
+        c = observed[len(observed) // 2]
+        summ["sample"] = {"omml": c["xml"][:300], "latex": c["out"]["s"], "docx": c["doc"]["st"], "pptx": c["ppt"]["st"]}
+    return summ
+
+
+def _judge(ctx, summ, label, counts):
+    """turn TLC's rejections into violations (at most 6 per clause are written out, all are counted)."""
+    ev, v = ctx.ev, ctx.v
+    ev.tlc_counts(f"OmmlTrace: {label} ({summ['n']} trees validated)", summ["distinct"], summ["generated"], summ["wall"])
+    ev.replayed(summ["n"])
+    for k in summ["nontrivial"]:
+        ev.nontrivial(k)
+    v.ok(summ["n"] - sum(summ["counts"].values()))
+    for clause, n in summ["counts"].items():
+        counts[clause] = counts.get(clause, 0) + n
+    for clause, c in summ["rejected"]:
+        v.violation(what=f"{CLAUSE_WHAT[clause]} [{label}; {summ['counts'][clause]} trees of this part]",
+                    case={"tree": c["tree"], "omml": c["xml"]},
+                    expected=f"clause {clause} of Omml.tla (Total / Pattern / Balanced / channels agree)",
+                    observed={"omml_to_latex": c["out"]["s"], "second": c["out2"]["s"],
+                              "docx": c["doc"], "pptx": c["ppt"]},
+                    where="omml_to_latex.py:omml_to_latex/process_element" if clause in ("Total", "Shape", "Balance", "Again")
+                    else "docx_extractor.py:_process_text_element / pptx_extractor.py:_extract_formulas_from_element")
+    return summ["n"]
 
 
 def run(ctx):
@@ -652,8 +666,9 @@ def run(ctx):
     if ctx.replay:                      # ./check C19 --replay <file>: exactly that tree / that OMML
         case = json.loads(Path(ctx.replay).read_text())["case"]
         obs = _observe(ctx, [{"id": "replay", "tree": case["tree"], "xml": case["omml"]}], known, "replay", nproc=1)
-        _judge(ctx, obs, "replayed case", counts)
-        ev.sample({"omml": case["omml"][:300], "latex": obs[0]["out"]["s"]})
+        summ = _validate(ctx, obs, 1)
+        _judge(ctx, summ, "replayed case", counts)
+        ev.sample(summ["sample"])
         ev.set(rule="one replayed case", exhaustive=False)
         return
 
@@ -665,7 +680,7 @@ def run(ctx):
         r = run_tlc("OmmlGen", _enum_cfg(parts, profile), scratch=ctx.scratch, dump=dump, workers=2, timeout=1700,
                     expect_fail=True, heap="6g")
         if r.violated:
-            return part, r, None, None
+            return part, r, None
         path = dump if dump.exists() else Path(str(dump) + ".dump")
         cases = [{"id": "", "tree": plain(s["tree"])} for s in iter_dump(path)]
         cases.sort(key=lambda c: json.dumps(c["tree"], sort_keys=True))
@@ -676,7 +691,7 @@ def run(ctx):
         path.unlink(missing_ok=True)
         ctx.log(f"{part}: {len(cases)} trees enumerated by TLC ({r.wall_s:.0f}s)")
         obs = _observe(ctx, cases, known, part, nproc=2 if not ctx.thorough else 4)
-        return part, r, obs, _validate(ctx, obs, 1 if not ctx.thorough else 3)
+        return part, r, _validate(ctx, obs, 1 if not ctx.thorough else 3)
 
     def sens(item):
         dev, part, inv = item
@@ -693,17 +708,15 @@ def run(ctx):
     total = 0
     samples = []
     for fut in enum_f:
-        part, r, obs, pre = fut.result()
+        part, r, summ = fut.result()
         ev.tlc(f"OmmlGen[{part}]: reference design is total / documented shape / balanced on every tree", r)
         if r.violated:
             v.violation(what=f"OmmlGen[{part}]: {r.violated} violated by the specification's reference design",
                         observed=r.trace[:1])
             continue
-        total += _judge(ctx, obs, f"universe part {part}", counts, pre=pre)
-        if obs:
-            c = obs[len(obs) // 2]
-            samples.append({"part": part, "omml": c["xml"][:300], "latex": c["out"]["s"], "docx": c["doc"]["st"],
-                            "pptx": c["ppt"]["st"]})
+        total += _judge(ctx, summ, f"universe part {part}", counts)
+        if summ["sample"]:
+            samples.append({"part": part, **summ["sample"]})
     for fut in sens_f:
         (dev, part, inv), r = fut.result()
         ev.tlc(f"OmmlGen sensitivity: Deviations={{{dev}}} must violate {inv}", r, note="expected violation")
@@ -762,7 +775,7 @@ def _testfile(ctx, known, counts):
         raise MachineryError("no formula of the repo's converter tests could be re-parsed")
     ctx.log(f"repo tests: {data['ran']} test functions, {len(cases)} recorded formulas re-parsed, {skipped} outside the vocabulary")
     obs = _observe(ctx, cases, known, "tests", nproc=1)
-    return _judge(ctx, obs, "formulas of sharepoint2text/tests/test_omml_to_latex.py", counts)
+    return _judge(ctx, _validate(ctx, obs, 1), "formulas of sharepoint2text/tests/test_omml_to_latex.py", counts)
 
 
 def _simulate(ctx, known, counts):
@@ -797,7 +810,7 @@ def _simulate(ctx, known, counts):
         raise MachineryError("tlc -simulate produced no behaviour files")
     ctx.log(f"simulate: {len(cases)} distinct deeper trees")
     obs = _observe(ctx, cases, known, "sim")
-    return _judge(ctx, obs, "tlc -simulate trees", counts)
+    return _judge(ctx, _validate(ctx, obs, 4), "tlc -simulate trees", counts)
 
 
 if __name__ == "__main__":
